@@ -68,11 +68,11 @@ type OPConfig struct {
 }
 
 type OPNode struct {
-	Handler  http.Handler
-	Provider *op.Provider
-	Store    *Store
-	Storage  op.Storage
-	Config   OPConfig
+	Handler   http.Handler
+	Provider  *op.Provider
+	Store     *Store
+	Storage   op.Storage
+	Config    OPConfig
 	LoginPath string
 }
 
